@@ -394,6 +394,9 @@ func (u *UnitGen) execUnOp(fr *Frame, st *State, in *ssa.UnOp) {
 				fr.closures[in] = cl
 			}
 			fr.fnOrigin[in] = u.originOf(a)
+			if a.local == "" && a.global == "" && a.slice == nil {
+				fr.fnSelf[in] = a.ref
+			}
 		}
 	case token.NOT:
 		u.setVal(fr, in, Not(u.val(fr, st, in.X)))
@@ -606,7 +609,9 @@ func (u *UnitGen) mapDom(st *State, mt types.Type, m Term) Term {
 
 func (u *UnitGen) mapVals(st *State, mt types.Type, m Term) Term {
 	_, vk, _, vs := u.mapKeys(mt)
-	return Select(u.get(st, vk, vs), m)
+	arr := u.get(st, vk, vs)
+	u.logLoad(vk, arr)
+	return Select(arr, m)
 }
 
 func (u *UnitGen) mapStore(st *State, mt types.Type, m, k, v Term) {
@@ -624,7 +629,7 @@ func (u *UnitGen) mapDelete(st *State, mt types.Type, m, k Term) {
 	d := u.get(st, dk, ds)
 	// delete on a nil map is a no-op; the nil map has an empty domain by convention
 	u.markStore(dk, m)
-	u.setDef(st, dk, Store(d, m, Store(Select(d, m), k, TFalse)))
+	u.setDef(st, dk, Ite(Eq(m, IntN(0)), d, Store(d, m, Store(Select(d, m), k, TFalse))))
 }
 
 func (u *UnitGen) execLookup(fr *Frame, st *State, in *ssa.Lookup) {
@@ -638,7 +643,7 @@ func (u *UnitGen) execLookup(fr *Frame, st *State, in *ssa.Lookup) {
 	u.lockCheckMapRead(fr, st, in.X)
 	dom := u.mapDom(st, in.X.Type(), m)
 	vals := u.mapVals(st, in.X.Type(), m)
-	present := And(Not(Eq(m, IntN(0))), Select(dom, k))
+	present := Select(dom, k)
 	pres := u.define(fmt.Sprintf("f%d_%s_in", fr.id, in.Name()), present)
 	v := u.define(fmt.Sprintf("f%d_%s_v", fr.id, in.Name()), Ite(pres, Select(vals, k), reg.Zero(mt.Elem())))
 	u.assume(st, Implies(pres, u.typeFacts(st, v, mt.Elem())))
@@ -665,7 +670,7 @@ func (u *UnitGen) execNext(fr *Frame, st *State, in *ssa.Next) {
 	vis := u.get(st, it.visited, ArraySort(ks, SBool))
 	k := u.havoc(fmt.Sprintf("f%d_%s_k", fr.id, in.Name()), ks)
 	okc := u.havoc(fmt.Sprintf("f%d_%s_ok", fr.id, in.Name()), SBool)
-	nonnil := Not(Eq(it.mapRef, IntN(0)))
+	nonnil := TTrue
 	u.assume(st, Implies(okc, And(nonnil, Select(dom, k), Not(Select(vis, k)))))
 	// exhaustion: every present key has been visited
 	q := fmt.Sprintf("(forall ((kk %s)) (! (=> (select %s kk) (select %s kk)) :pattern ((select %s kk))))", ks, dom.S, vis.S, dom.S)
